@@ -18,7 +18,30 @@ from __future__ import annotations
 from dataclasses import dataclass, replace
 from typing import Optional, Tuple
 
-NOCONST = ("<noconst>",)
+class _NoConst:
+    """Singleton that survives pickling."""
+    __slots__ = ()
+    _inst = None
+
+    def __new__(cls):
+        if cls._inst is None:
+            cls._inst = object.__new__(cls)
+        return cls._inst
+
+    def __reduce__(self):
+        return (_NoConst, ())
+
+    def __repr__(self):
+        return "<noconst>"
+
+    def __eq__(self, other):
+        return isinstance(other, _NoConst)
+
+    def __hash__(self):
+        return 0x5EED
+
+
+NOCONST = _NoConst()
 MAX_PATH = 5
 MAX_DEPTH = 4
 
@@ -67,7 +90,7 @@ class AV:
 
     # ------------------------------------------------------------ predicates
     def has_const(self) -> bool:
-        return self.const is not NOCONST
+        return not isinstance(self.const, _NoConst)
 
     def is_top(self) -> bool:
         return self.types is None
@@ -139,7 +162,14 @@ def join(a: Optional[AV], b: Optional[AV]) -> Optional[AV]:
         return a
     types = None if (a.types is None or b.types is None) else a.types | b.types
     items = None
-    elem = join(a.elem, b.elem)
+    ea, eb = a.elem, b.elem
+    # an element abstraction of None means "no element" only for an empty container (EMPTY qualifier); for any other
+    # value it means "elements unknown": the known side must not keep must-facts (qualifiers, precise types)
+    if ea is None and eb is not None and EMPTYQ not in a.quals and a.items is None:
+        eb = _unknown_elem(eb)
+    elif eb is None and ea is not None and EMPTYQ not in b.quals and b.items is None:
+        ea = _unknown_elem(ea)
+    elem = join(ea, eb)
     if a.items is not None and b.items is not None and len(a.items) == len(b.items):
         items = tuple(join(x, y) for x, y in zip(a.items, b.items))
     else:
@@ -153,6 +183,10 @@ def join(a: Optional[AV], b: Optional[AV]) -> Optional[AV]:
     fn = a.fn if a.fn == b.fn else None
     return AV(types=types, alias=a.alias | b.alias, deps=a.deps | b.deps, quals=_join_quals(a, b),
               elem=elem, key=join(a.key, b.key), items=items, const=const, fn=fn)
+
+
+def _unknown_elem(e: AV) -> AV:
+    return replace(e, types=None, quals=frozenset(), const=NOCONST, items=None)
 
 
 def join_all(vals) -> AV:
